@@ -23,11 +23,13 @@ fn text_of(id: &str) -> String {
     if id == "L" { return format!("{}\n", TEXTS[0].1).repeat(3400); }
     TEXTS.iter().find(|t| t.0 == id).map(|t| t.1.to_string()).unwrap_or_default()
 }
-const LANGS: [&str; 4] = ["plaintext", "markdown", "plaintext", "rust"];
+const LANGS: [&str; 6] = ["plaintext", "markdown", "plaintext", "rust", "html", "lhaskell"];
 /// what the client sends for a text id in a document of the given language: the Rust document puts the
 /// prose into comments around an identifier that also occurs in the prose (the identifier dictionary)
 fn text_for(lang: &str, id: &str) -> String {
     let t = text_of(id);
+    if lang == "html" { return format!("<html><body><h1>{}</h1>\n<p title=\"zzattr\">{} again</p></body></html>\n", t, t); }
+    if lang == "lhaskell" { return format!("{}\n\n> foo_barq :: Int\n> foo_barq = 1\n\nHere foo_barq is used {}\n", t, t); }
     if lang == "rust" { format!("// {} and foo_barq too\nfn foo_barq(zq_arg: u8) -> u8 {{ zq_arg }}\n// zq_arg again\n", t.replace('\n', "\n// ")) } else { t }
 }
 fn diag_digest(diags: &Value) -> String {
@@ -45,7 +47,7 @@ fn reference_table(dir: &std::path::Path) -> RefTable {
         let mut ls = Ls::new(&d);
         ls.settings = crate::ls::settings_for(&d, serde_json::from_str(linters).unwrap(), dialect);
         ls.initialize();
-        for (li, lang) in ["plaintext", "markdown", "rust"].iter().enumerate() {
+        for (li, lang) in ["plaintext", "markdown", "rust", "html", "lhaskell"].iter().enumerate() {
             for (ti, tid) in ["A", "B", "C", "D", "L"].iter().enumerate() {
                 if *tid == "L" && (*lang != "plaintext" || !["c0", "c2"].contains(cid)) { continue; }
                 let text = &text_for(lang, tid);
@@ -79,10 +81,15 @@ impl<'a> Sess<'a> {
         std::fs::write(&p2, "").unwrap();
         let p4 = dir.join("four.rs");
         std::fs::write(&p4, "").unwrap();
-        let urls = vec![format!("file://{}", p1.to_string_lossy()), format!("file://{}", p2.to_string_lossy()), "untitled:Untitled-1".to_string(), format!("file://{}", p4.to_string_lossy())];
+        let p5 = dir.join("five.html");
+        let p6 = dir.join("six.lhs");
+        std::fs::write(&p5, "").unwrap();
+        std::fs::write(&p6, "").unwrap();
+        let urls = vec![format!("file://{}", p1.to_string_lossy()), format!("file://{}", p2.to_string_lossy()), "untitled:Untitled-1".to_string(), format!("file://{}", p4.to_string_lossy()),
+            format!("file://{}", p5.to_string_lossy()), format!("file://{}", p6.to_string_lossy())];
         let mut ls = Ls::new(&dir);
         ls.initialize();
-        Self { ls, dir, urls, paths: vec![Some(p1), Some(p2), None, Some(p4)], evs: vec![json!({"ev": "Reset"})], seq: 0, client: vec![String::new(); 4], tab, ncfg: 0 }
+        Self { ls, dir, urls, paths: vec![Some(p1), Some(p2), None, Some(p4), Some(p5), Some(p6)], evs: vec![json!({"ev": "Reset"})], seq: 0, client: vec![String::new(); 6], tab, ncfg: 0 }
     }
     fn submit(&mut self, m: &Msg) -> usize {
         self.seq += 1;
@@ -215,6 +222,12 @@ pub fn main(a: &Args) {
         }
         // (1d) configuration walks: every ordered pair of configurations around an edit, then back to the default
         // (an override that is set and later removed; a dialect switch and back)
+        // (1f) the other front-ends (HTML, Literate Haskell with its identifier dictionary): a reduced set of histories
+        for u in 4..6usize {
+            run(&[m("open", u, "A"), m("change", u, "B"), m("change", u, "C"), m("change", u, "C")], &[], &[], &[], &mut out);
+            run(&[m("open", u, "A"), m("save", u, ""), m("change", u, "B"), m("adduser", u, ""), m("change", u, "A")], &[], &[], &[], &mut out);
+            run(&[m("open", u, "A"), m("config", u, "c1"), m("change", u, "B"), m("config", u, "c0"), m("close", u, ""), m("open", u, "B")], &[], &[], &[], &mut out);
+        }
         // (1e) a very long document: open short, grow long, shrink again; open long; configuration change while long
         for u in [0usize, 2].into_iter().take(a.num("long-docs", 1) as usize) {
             run(&[m("open", u, "A"), m("change", u, "L"), m("change", u, "B")], &[], &[], &[], &mut out);
